@@ -483,7 +483,7 @@ func emitManifest() {
 		ids = append(ids, fmt.Sprintf("C%02d", i))
 	}
 	var checks []any
-	var na []any
+	na := []any{}
 	for _, id := range ids {
 		spec := propTable[id]
 		if spec == nil {
